@@ -647,6 +647,12 @@ def sequences(ctx, progs):
                 for second in ('set', 'unset'):
                     seqn = [(variant, state('set'), pt), (variant, state(second), None)]
                     run_sequence(ctx, st, p, seqn)
+            if p['func'] == 'template_input':
+                # the first call writes the intermediate dump file, the second one (other entry state) loads it
+                for first, second in (('set', 'set'), ('set', 'unset'), ('unset', 'set')):
+                    seqn = [(variant, state(first), None), (dict(variant, keep_dump=True), state(second), None)]
+                    run_sequence(ctx, st, p, seqn)
+                    ctx.count('template_input:sequence-through-dump-file')
             st.flush()
     finally:
         R.MON.stop()
